@@ -334,6 +334,25 @@ def w_F26(ctx):
     return _design(ctx, _leaf([w, T2], [1], [{"k": "ExactlyK", "n": 1, "f": 0, "l": 0}]), ["mismatch"])
 
 
+def w_F31(ctx):
+    # two implied within-trial factors, the dependent one listed first in the design
+    c = _sf(0, ["r", "g"])
+    i1 = _within(1, [0], [2], [[0, 1, 0], [1, 0, 1]], ["isr", "notr"])
+    i2 = _within(2, [1], [2], [[0, 1, 0], [1, 0, 1]], ["yes", "no"])
+    d = {"factors": [c, i1, i2], "block": {"k": "cross", "design": [0, 2, 1], "crossing": [0], "cs": [], "rcc": True}}
+    return _design(ctx, d, ["exception", "sound"]) or _design(ctx, d, ["exception"], strat="RandomGen")
+
+
+def w_F32(ctx):
+    # two crossed within-trial derived factors over shared sources outside the crossing: d1 = (a == b), d2 = (a is its first level)
+    a, b = _sf(0, ["1", "2"]), _sf(1, ["1", "2"])
+    eq = [0] * 9
+    eq[4] = eq[8] = 1
+    d1 = _within(2, [0, 1], [2, 2], [eq, [1 - x for x in eq]], ["eq", "ne"])
+    d2 = _within(3, [0], [2], [[0, 1, 0], [1, 0, 1]], ["one", "two"])
+    return _design(ctx, _leaf([a, b, d1, d2], [2, 3], []), ["exception"], strat="RandomGen")
+
+
 def w_F30(ctx):
     s3 = _sf(0, ["c1", "c2", "c3"])
     w = _sf(1, ["big", "small"], [2, 1])
